@@ -1,16 +1,21 @@
 """C01 -- every grader call returns a well-formed, self-consistent edX result.
 
-spec -> code: TLC explores ResultPipeline (one action per stage the library applies to a result) for three parts
-              (item / single / list); every terminal state carries the complete vector of environment choices, the
-              result the model returns and the model's own verdict.  Each vector is realised with real graders
-              (scripted comparers inside FormulaGrader / MatrixGrader / NumericalGrader, engine/fixtures.TableGrader,
-              real SingleListGrader / ListGrader nesting) and the value the real call returns is (a) judged by the
-              property-level spec (ResultShapeTrace, TLC) and (b) compared field by field with the model's result
-              (a mismatch there is DRIFT, not a verdict).
+spec -> code: TLC explores ResultPipeline (one action per stage the library applies to a result) in five parts: item,
+              single (SingleListGrader), interval (IntervalGrader), list (ListGrader, grouped / nested) and shared (a
+              HISTORY: a ListGrader call, then one of its subgrader objects called on its own).  Every terminal state
+              carries the complete vector of environment choices and the result(s) the model returns.  Each vector is
+              realised with real graders (scripted comparers inside FormulaGrader / MatrixGrader / NumericalGrader,
+              StringGrader, engine/fixtures.TableGrader, real SingleListGrader / IntervalGrader / ListGrader nesting;
+              attempt credits reached through author functions and through Linear/Geometric/ReciprocalCredit at late
+              attempts) and every value a real call returns is (a) judged by the property-level spec
+              (ResultShapeTrace, TLC) against the debug flag the called object was CONFIGURED with and (b) compared
+              field by field with the model's result (a mismatch there is DRIFT, not a verdict).
+              Two flawed designs of the pipeline are kept as exhibits: TLC must produce their counterexamples.
 code -> spec: a seeded random driver builds configurations of every public grader class (String, Formula, Numerical,
-              Matrix, SingleList, Interval, Sum, List incl. nested / grouped) and calls them on formulas, delimited
-              lists, empty strings and unicode garbage with attempt numbers; every RETURNED value becomes one trace
-              record validated by ResultShapeTrace.
+              Matrix, SingleList, Interval, Sum, List incl. nested / grouped), runs short histories on the same
+              objects (the call, the call again, shared subgraders of a list called on their own) on formulas,
+              delimited lists, empty strings and unicode garbage with attempt numbers up to 25000 and all credit
+              schedules; every RETURNED value becomes one trace record validated by ResultShapeTrace.
 """
 import json
 import numbers
@@ -120,7 +125,35 @@ HOSTS = {'formula': ('FormulaGrader', '1', '1'), 'matrix': ('MatrixGrader', '[1,
 ERR_EVENTS = ('Es', 'Et', 'Ea')
 GUARD_CFG = {'suppress': {'suppress_matrix_messages': True}, 'raise': {},
              'message': {'shape_errors': False, 'answer_shape_mismatch': {'is_raised': False, 'msg_detail': 'type'}}}
-ATT = {'c1': 1, 'c12': 0.5, 'c0': 0}
+ATT = {'c1': 1, 'c12': 0.5, 'c0': 0, 'c1e4': 0.0001, 'c7e5': 0.00007, 'c3e5': 0.00003, 'c13': 1 / 3}
+# the same rounded credit reached through the built-in schedules (late attempts) and author-defined functions:
+# (schedule, keyword arguments, attempt number); None = a plain function returning the value
+ATT_VIA = {
+    'c1': [(None, {}, 2), ('GeometricCredit', {}, 1), ('LinearCredit', {'decrease_credit_after': 3}, 3), ('ReciprocalCredit', {}, 0),
+           ('LinearCredit', {}, 1)],
+    'c12': [(None, {}, 2), ('GeometricCredit', {'factor': 0.5}, 2), ('ReciprocalCredit', {}, 2),
+            ('LinearCredit', {'minimum_credit': 0.5, 'decrease_credit_steps': 1}, 5),
+            ('LinearCredit', {'minimum_credit': 0, 'decrease_credit_steps': 2}, 2)],
+    'c0': [(None, {}, 2), ('GeometricCredit', {'factor': 0}, 2), ('LinearCredit', {'minimum_credit': 0, 'decrease_credit_steps': 1}, 2),
+           ('GeometricCredit', {}, 60), ('ReciprocalCredit', {}, 30000)],
+    'c1e4': [(None, {}, 2), ('GeometricCredit', {}, 33), ('GeometricCredit', {'factor': 0.5}, 14),
+             ('LinearCredit', {'minimum_credit': 0.0001}, 9), ('ReciprocalCredit', {}, 10000), ('GeometricCredit', {}, 32)],
+    'c7e5': [(None, {}, 7), ('ReciprocalCredit', {}, 14000), ('GeometricCredit', {}, 34)],
+    'c3e5': [(None, {}, 3), ('GeometricCredit', {}, 37), ('ReciprocalCredit', {}, 30000)],
+    'c13': [(None, {}, 2)],
+}
+
+
+def attempt_realisation(att, k):
+    """-> (attempt_based_credit callable, attempt number) whose rounded credit is the model's"""
+    import mitxgraders as mg
+    val = ATT[att]
+    name, kw, n = ATT_VIA[att][k % len(ATT_VIA[att])]
+    if name is not None:
+        sched = getattr(mg, name)(**kw)
+        if round(float(sched(max(n, 1))), 4) == round(val, 4):
+            return sched, n
+    return (lambda n_, _v=val: _v), n
 
 
 def fl(q):
@@ -228,21 +261,29 @@ def leaf_answers(leaf, pos, host, corr=False):
     return tuple(out)
 
 
-def tail_kwargs(tail):
+def tail_kwargs(tail, k=0):
     kw = {'debug': bool(tail.get('debug', False))}
     att = tail.get('attempt', 'none')
+    attempt = 2
     if att != 'none':
-        val = ATT[att]
-        kw['attempt_based_credit'] = lambda n, _v=val: _v
-    return kw
+        kw['attempt_based_credit'], attempt = attempt_realisation(att, k)
+    return kw, attempt
 
 
-def realise(part, ch, host):
-    """-> (grader, student_input, pinned set, n_inputs, form).  Import mitxgraders only after repo.activate()."""
+def realise(part, ch, host, k=0):
+    """-> (grader, student_input, pinned set, n_inputs, form, attempt number, leaf objects [(grader, input)] in the
+    order the model computes them).  Import mitxgraders only after repo.activate()."""
+    g, inp, pins, n, form, extra = _realise(part, ch, host, k)
+    return g, inp, pins, n, form, extra[0], extra[1]
+
+
+def _realise(part, ch, host, k):
     import mitxgraders as mg
     from engine.fixtures import TableGrader
     head, leaves, tail = decode(ch)
-    kw = tail_kwargs(tail)
+    kw, attempt = tail_kwargs(tail, k)
+    objs = []
+    X = (attempt, objs)
     pins = set()
     for lf in leaves:
         pins |= pins_of(a['ans'] for a in lf['alts'])
@@ -260,13 +301,13 @@ def realise(part, ch, host):
                 if pin is not None:
                     a['ok'] = pin
                 answers.append(a)
-            return cls(answers=tuple(answers), wrong_msg=wrong, **kw), 'hit', pins, 1, 'item'
+            return cls(answers=tuple(answers), wrong_msg=wrong, **kw), 'hit', pins, 1, 'item', X
         cfg = dict(answers=leaf_answers(lf, 0, host, corr=head['corr']), wrong_msg=wrong, **kw)
         if host != 'numerical':
             cfg.update(samples=head['samples'], failable_evals=head['failable'])
         if host == 'matrix':
             cfg.update(GUARD_CFG[head.get('guard', 'raise')])
-        return cls(**cfg), HOSTS[host][2], pins, 1, 'item'
+        return cls(**cfg), HOSTS[host][2], pins, 1, 'item', X
     if part == 'single':
         n_e, n_i = head['expected'], head['submitted']
         lw = [lf['wrong'] for lf in leaves if lf['wrong'] is not None]
@@ -284,7 +325,7 @@ def realise(part, ch, host):
             pins |= pins_of([head['listans']])
         g = mg.SingleListGrader(subgrader=sub, ordered=True, delimiter=';', partial_credit=head['partial_credit'],
                                 answers=ans, wrong_msg='' if tail.get('owrong') is False else 'MSG_WR@p0', **kw)
-        return g, ';'.join([HOSTS[host][2]] * n_i), pins, 1, 'item'
+        return g, ';'.join([HOSTS[host][2]] * n_i), pins, 1, 'item', X
     if part == 'interval':
         lw = [lf['wrong'] for lf in leaves if lf['wrong'] is not None]
         sub = getattr(mg, HOSTS[host][0])(wrong_msg='MSG_WR@p0' if (not lw or lw[0]) else '')
@@ -300,7 +341,7 @@ def realise(part, ch, host):
                               partial_credit=head['partial_credit'], answers=ans,
                               wrong_msg='' if tail.get('owrong') is False else 'MSG_WR@p0', **kw)
         typed = {'b1': '[]', 'b12': '()', 'b0': '{}', 'bnone': '<>'}
-        return g, typed[head['open']][0] + '1,1' + typed[head['close']][1], pins, 1, 'item'
+        return g, typed[head['open']][0] + '1,1' + typed[head['close']][1], pins, 1, 'item', X
     # list
     layout = head['layout']
     groups = GROUPS[layout]
@@ -308,6 +349,7 @@ def realise(part, ch, host):
     inputs = [None] * n
     it = iter(leaves)
     hosts = ['formula', 'matrix', 'numerical']
+    cd = bool(head.get('child_debug', True))        # the debug flag the subgrader objects are configured with
     subs, answers = [], []
     for grp in groups:
         gsubs, gans = [], []
@@ -319,25 +361,28 @@ def realise(part, ch, host):
                 okv = {0: False, 1: True}.get(g, 'partial')
                 inp = 'in%d' % pos
                 gsubs.append(TableGrader(table={('e', inp): {'ok': okv, 'grade_decimal': g, 'msg': 'MSG_TM@p%d' % pos}},
-                                         wrong_msg=wrong))
+                                         wrong_msg=wrong, answers='e', debug=cd))
                 gans.append('e')
             else:
                 h = hosts[(pos + (0 if host == 'formula' else 1)) % 3] if host != 'same' else 'formula'
                 inp = HOSTS[h][2]
-                gsubs.append(getattr(mg, HOSTS[h][0])(wrong_msg=wrong, debug=True))
-                gans.append(leaf_answers(lf, pos, h))
+                # the subgrader object carries the same answers itself, so that it can also be called on its own
+                la = leaf_answers(lf, pos, h)
+                gsubs.append(getattr(mg, HOSTS[h][0])(wrong_msg=wrong, debug=cd, answers=la))
+                gans.append(la)
             inputs[pos - 1] = inp
+            objs.append((gsubs[-1], inp, pins_of(a['ans'] for a in lf['alts'])))
         if len(grp) == 1:
             subs.append(gsubs[0])
             answers.append(gans[0])
         else:
             subs.append(mg.ListGrader(subgraders=gsubs, ordered=True, partial_credit=head['inner_partial_credit'],
-                                      debug=True))
+                                      debug=cd))
             answers.append(gans)
     cfg = dict(subgraders=subs, ordered=True, partial_credit=head['partial_credit'], answers=answers, **kw)
     if layout in GROUPING:
         cfg['grouping'] = GROUPING[layout]
-    return mg.ListGrader(**cfg), inputs, pins, n, 'list'
+    return mg.ListGrader(**cfg), inputs, pins, n, 'list', X
 
 
 def model_item(m):
@@ -399,14 +444,29 @@ def hosts_for(part, ch, head, k, all_hosts=True):
     return [['formula', 'matrix'][k % 2]]
 
 
-def run_vector(part, ch, host):
-    """-> (result or None, error text or None, meta)"""
-    g, inp, pins, n, form = realise(part, ch, host)
-    meta = {'pins': sorted(pins), 'n_inputs': n, 'form': form, 'cls': type(g).__name__, 'debug': g.config['debug']}
+def _call(fn):
     try:
-        return g(None, inp, attempt=2), None, meta
-    except Exception as e:  # the model says this call returns
-        return None, '%s: %s' % (type(e).__name__, str(e)[:200]), meta
+        return fn(), None
+    except Exception as e:
+        return None, '%s: %s' % (type(e).__name__, str(e)[:200])
+
+
+def run_vector(part, ch, host, k=0):
+    """-> list of observations, one per call of the history: (result or None, error text or None, meta)"""
+    g, inp, pins, n, form, attempt, objs = realise(part, ch, host, k)
+    head = decode(ch)[0]
+    meta = {'pins': sorted(pins), 'n_inputs': n, 'form': form, 'cls': type(g).__name__, 'debug': g.config['debug'],
+            'call': 'list' if part == 'shared' else 'only'}
+    result, err = _call(lambda: g(None, inp, attempt=attempt))
+    out = [(result, err, meta)]
+    if part == 'shared':
+        # second call of the history: the subgrader object, configured with its own debug flag, on its own
+        child, cinp, cpins = objs[head['alone'] - 1]
+        cmeta = {'pins': sorted(cpins), 'n_inputs': 1, 'form': 'item', 'cls': type(child).__name__,
+                 'debug': bool(head['child_debug']), 'call': 'alone'}
+        result2, err2 = _call(lambda: child(None, cinp))
+        out.append((result2, err2, cmeta))
+    return out
 
 
 def replay_states(states, extra):
@@ -418,55 +478,63 @@ def replay_states(states, extra):
     n_term = n_calls = n_pred = n_raised = n_drift = 0
     keys = set()
     k = 0
+
+    def note(host, ch, what, vd=''):
+        if len(drift) < 20:
+            drift.append({'part': part, 'host': host, 'ch': ch, 'what': what, 'model_verdict': vd})
+
     for st in states:
         if st.get('st') not in ('returned', 'raised'):
             continue
+        if part == 'shared' and st['cf']['phase'] != 2:
+            continue                        # the history goes on: the subgrader is called next
         n_term += 1
         ch = st['ch']
         head = decode(ch)[0]
         if st['st'] == 'raised':
             # the model says the call raises the shape / type error: nothing is returned, nothing to judge
-            result, err, meta = run_vector(part, ch, 'matrix')
+            (result, err, meta), = run_vector(part, ch, 'matrix', k)
             n_calls += 1
             n_raised += 1
             wrong_exit = err is None or err.split(':')[0] not in ('MathArrayShapeError', 'InputTypeError', 'ArgumentShapeError')
             n_drift += wrong_exit
-            if wrong_exit and len(drift) < 20:
-                drift.append({'part': part, 'host': 'matrix', 'ch': ch,
-                              'what': 'model raises the shape/type error, code %s' % ('returned %s' % brief(result, 120) if err is None else 'raised ' + err)})
+            if wrong_exit:
+                note('matrix', ch, 'model raises the shape/type error, code %s' % (
+                    'returned %s' % brief(result, 120) if err is None else 'raised ' + err))
             keys.add((part, 'MatrixGrader', 'raised', ()))
             continue
         if st['vd'] != '':
             n_pred += 1
         for host in hosts_for(part, ch, head, k, extra.get('all_hosts', True)):
             k += 1
-            result, err, meta = run_vector(part, ch, host)
-            n_calls += 1
-            if err is not None:
-                n_drift += 1
-                if len(drift) < 20:
-                    drift.append({'part': part, 'host': host, 'ch': ch, 'what': 'model returns, code raised ' + err})
-                continue
-            diffs = compare_result(st['res'], result, frozenset(['LOGCMP']) if host == 'string' else frozenset())
-            n_drift += bool(diffs)
-            if diffs and len(drift) < 20:
-                drift.append({'part': part, 'host': host, 'ch': ch, 'what': '; '.join(diffs[:3]),
-                              'model_verdict': st['vd']})
-            rec = project(result)
-            rec.update(cls=meta['cls'], form=meta['form'], n_inputs=meta['n_inputs'], debug=meta['debug'],
-                       pinned=meta['pins'])
-            text = json.dumps(rec, sort_keys=True)
-            c = classes.get(text)
-            if c is None:
-                classes[text] = [1, {'part': part, 'host': host, 'ch': ch, 'result': brief(result),
-                                     'model_verdict': st['vd']}]
-            else:
-                c[0] += 1
-                if len(ch) < len(c[1]['ch']):       # keep the shortest vector as the representative
-                    c[1] = {'part': part, 'host': host, 'ch': ch, 'result': brief(result), 'model_verdict': st['vd']}
-            keys.add((part, meta['cls'], st['vd'], tuple(sorted((i['ok'], i['cls']) for i in rec['items']))))
-    return {'terminal': n_term, 'calls': n_calls, 'predicted_ill_formed': n_pred, 'raised': n_raised, 'drifting': n_drift, 'classes': classes, 'drift': drift,
-            'keys': sorted(keys)}
+            obs = run_vector(part, ch, host, k)
+            models = [(st['cf']['res1'], st['cf']['vd1']), (st['res'], st['vd'])] if part == 'shared' else [(st['res'], st['vd'])]
+            for (result, err, meta), (mres, vd) in zip(obs, models):
+                n_calls += 1
+                if err is not None:
+                    n_drift += 1
+                    note(host, ch, 'model returns, code raised %s (%s call)' % (err, meta['call']))
+                    continue
+                ignore = frozenset(['LOGCMP']) if (host == 'string' or meta['call'] == 'alone') else frozenset()
+                diffs = compare_result(mres, result, ignore)
+                n_drift += bool(diffs)
+                if diffs:
+                    note(host, ch, '%s call: %s' % (meta['call'], '; '.join(diffs[:3])), vd)
+                rec = project(result)
+                rec.update(cls=meta['cls'], form=meta['form'], n_inputs=meta['n_inputs'], debug=meta['debug'],
+                           pinned=meta['pins'])
+                text = json.dumps(rec, sort_keys=True)
+                ex = {'part': part, 'host': host, 'ch': ch, 'result': brief(result), 'model_verdict': vd, 'call': meta['call'], 'k': k}
+                c = classes.get(text)
+                if c is None:
+                    classes[text] = [1, ex]
+                else:
+                    c[0] += 1
+                    if len(ch) < len(c[1]['ch']):       # keep the shortest vector as the representative
+                        c[1] = ex
+                keys.add((part, meta['cls'], meta['call'], vd, tuple(sorted((i['ok'], i['cls']) for i in rec['items']))))
+    return {'terminal': n_term, 'calls': n_calls, 'predicted_ill_formed': n_pred, 'raised': n_raised, 'drifting': n_drift,
+            'classes': classes, 'drift': drift, 'keys': sorted(keys)}
 
 
 def vector_text(part, host, ch):
@@ -512,13 +580,26 @@ SIMPLE_EXPRS = ['x+1', '2*x', 'x^2+x_1', "y'*3", 'x/2', '3', '0', 'x-x', 'T_{1}^
                 'x*x_1-1']
 
 
+ATTEMPTS = [1, 1, 2, 2, 3, 4, 6, 0, 11, 14, 15, 16, 20, 31, 32, 33, 34, 35, 36, 40, 60, 200, 6700, 10000, 14000, 19000, 25000]
+
+
 def r_attempt(rng):
+    """attempt-based credit: off, an author-defined function (also tiny values), or one of the three built-in
+    schedules with generated parameters"""
     r = rng.random()
-    if r < 0.55:
+    if r < 0.4:
         return None
-    if r < 0.7:
-        return {'kind': 'const', 'v': rng.choice([1, 0.5, 0, 0.3333, 0.25, 1.0, 0.0])}
-    return {'kind': rng.choice(['linear', 'geometric', 'reciprocal'])}
+    if r < 0.55:
+        return {'kind': 'const', 'v': rng.choice([1, 0.5, 0, 0.3333, 0.25, 1.0, 0.0, 0.0001, 0.0001, 0.00005, 0.00004, 0.0002,
+                                                   1e-9, 0.9999, 0.99996])}
+    kind = rng.choice(['linear', 'geometric', 'reciprocal'])
+    kw = {}
+    if kind == 'linear' and rng.random() < 0.7:
+        kw = {'minimum_credit': rng.choice([0.0001, 0.0001, 0.2, 0, 0.0002, 0.5]), 'decrease_credit_steps': rng.choice([1, 2, 4, 10]),
+              'decrease_credit_after': rng.choice([1, 1, 3])}
+    if kind == 'geometric' and rng.random() < 0.6:
+        kw = {'factor': rng.choice([0.5, 0.5, 0.9, 0.25, 0.1, 0, 1])}
+    return {'kind': kind, 'kw': kw}
 
 
 def r_common(rng, d):
@@ -526,7 +607,10 @@ def r_common(rng, d):
     d['attempt_credit'] = r_attempt(rng)
     if d['attempt_credit'] and rng.random() < 0.3:
         d['attempt_msg'] = False
-    d['attempt'] = rng.choice([1, 1, 2, 3, 4, 6, 0, 11])
+    d['attempt'] = rng.choice(ATTEMPTS)
+    d['again'] = rng.random() < 0.25
+    if d['cls'] == 'ListGrader' and rng.random() < 0.3:
+        d['debug'] = True                    # debugging lists around shared subgrader objects
     return d
 
 
@@ -841,12 +925,17 @@ def gen_list(rng, sub=False):
                 subd['kw']['debug'] = True
             pairs = rng.sample(pool, min(n, len(pool)))
             n = len(pairs)
+            if kind != 'singlelist' and rng.random() < 0.7:
+                subd['answers'] = [pairs[0][0]]     # the shared object can also grade on its own
             d['subgraders'] = subd
             d['kw']['ordered'] = rng.random() < 0.4
         else:
             kinds = [rng.choice(['string', 'formula', 'numerical', 'table', 'matrix']) for _ in range(n)]
             leaves = [list_leaf(rng, k) for k in kinds]
             pairs = [rng.choice(p) for _, p in leaves]
+            for (sd, _), (a, _i) in zip(leaves, pairs):
+                if rng.random() < 0.7:
+                    sd['answers'] = [a]
             d['subgraders'] = [s for s, _ in leaves]
             if child_debug:
                 d['subgraders'][0]['kw']['debug'] = True
@@ -980,7 +1069,7 @@ def build(d, top=True):
                 kw['attempt_based_credit'] = lambda n, _v=ac['v']: _v
             else:
                 kw['attempt_based_credit'] = {'linear': mg.LinearCredit, 'geometric': mg.GeometricCredit,
-                                              'reciprocal': mg.ReciprocalCredit}[ac['kind']]()
+                                              'reciprocal': mg.ReciprocalCredit}[ac['kind']](**ac.get('kw', {}))
             if d.get('attempt_msg') is False:
                 kw['attempt_based_credit_msg'] = False
     answers = d.get('answers')
@@ -1019,22 +1108,10 @@ def table_positions(d, result):
     return None
 
 
-def observe_case(d):
-    """-> (record facts or None when the call raised, outcome text)"""
-    try:
-        g = build(d)
-    except Exception as e:
-        return None, 'config:%s' % type(e).__name__, None
-    expect = None
-    kwargs = {'attempt': d['attempt']} if d.get('attempt_credit') or d['attempt'] % 2 else {}
-    try:
-        result = g(expect, d['inputs'], **kwargs)
-    except Exception as e:
-        return None, 'raised:%s' % type(e).__name__, None
+def _record(d, cls, inputs, result, debug, pins):
     rec = project(result)
-    inputs = d['inputs']
     is_list = isinstance(inputs, list)
-    form = 'sum' if (d['cls'] == 'SumGrader' and is_list) else ('list' if is_list else 'item')
+    form = 'sum' if (cls == 'SumGrader' and is_list) else ('list' if is_list else 'item')
     # echo positions name the input token ('i3' -> 3); turn them into box numbers (or drop them when ambiguous)
     if rec['listform'] and is_list:
         for k, it in enumerate(rec['items']):
@@ -1045,9 +1122,40 @@ def observe_case(d):
     else:
         for it in rec['items']:
             it['pos'] = 0
-    rec.update(cls=d['cls'], form=form, n_inputs=len(inputs) if is_list else 1, debug=bool(d.get('debug', False)),
-               pinned=sorted(collect_pins(d, set())))
-    return rec, 'returned', result
+    rec.update(cls=cls, form=form, n_inputs=len(inputs) if is_list else 1, debug=bool(debug), pinned=pins)
+    return rec
+
+
+def observe_case(d):
+    """One generated case is a short HISTORY on one set of grader objects: the call itself, optionally the same call
+    again, and -- for a ListGrader whose subgrader objects carry answers of their own -- each such subgrader called
+    directly afterwards.  Every call that returns is judged against the debug flag its grader was CONFIGURED with.
+    -> list of observations {label, rec (None when the call raised), outcome, result}"""
+    try:
+        g = build(d)
+    except Exception as e:
+        return [{'label': 'call', 'rec': None, 'outcome': 'config:%s' % type(e).__name__, 'result': None}]
+    pins = sorted(collect_pins(d, set()))
+    kwargs = {'attempt': d['attempt']} if d.get('attempt_credit') or d['attempt'] % 2 else {}
+    calls = [('call', g, d['cls'], d['inputs'], kwargs, d.get('debug', False))]
+    if d.get('again'):
+        calls.append(('again', g, d['cls'], d['inputs'], kwargs, d.get('debug', False)))
+    if d['cls'] == 'ListGrader' and 'grouping' not in d.get('kw', {}):
+        subs = d['subgraders']
+        objs = g.config['subgraders']
+        pairs = list(zip(subs, objs, d['inputs'])) if isinstance(subs, list) else [(subs, objs, d['inputs'][0])]
+        for n, (sd, obj, inp) in enumerate(pairs[:2]):
+            if sd.get('answers') and isinstance(inp, str):
+                calls.append(('alone%d' % n, obj, sd['cls'], inp, {}, sd.get('kw', {}).get('debug', False)))
+    out = []
+    for label, obj, cls, inputs, kw, debug in calls:
+        try:
+            result = obj(None, inputs, **kw)
+        except Exception as e:
+            out.append({'label': label, 'rec': None, 'outcome': 'raised:%s' % type(e).__name__, 'result': None})
+            continue
+        out.append({'label': label, 'rec': _record(d, cls, inputs, result, debug, pins), 'outcome': 'returned', 'result': result})
+    return out
 
 
 def describe(d):
@@ -1071,24 +1179,27 @@ def observe_chunk(items, extra):
         for k in range(count):
             name, gen = GENERATORS[rng.randrange(len(GENERATORS))]
             d = r_common(rng, gen(rng))
-            rec, outcome, result = observe_case(d)
-            key = '%s:%s' % (d['cls'], outcome)
-            stats[key] = stats.get(key, 0) + 1
-            if rec is None:
-                continue
-            rec['id'] = start + k
-            recs.append(rec)
-            descs[start + k] = {'case': describe(d), 'result': brief(result)}
+            for j, o in enumerate(observe_case(d)[:HISTORY_MAX]):
+                key = '%s:%s' % (d['cls'] if j == 0 else o['label'].rstrip('01'), o['outcome'])
+                stats[key] = stats.get(key, 0) + 1
+                if o['rec'] is None:
+                    continue
+                rid = start + k * HISTORY_MAX + j
+                o['rec']['id'] = rid
+                recs.append(o['rec'])
+                descs[rid] = {'case': describe(d), 'call': o['label'], 'result': brief(o['result'])}
     return {'recs': recs, 'stats': stats, 'descs': descs}
 
 
 # ------------------------------------------------------------------ the check
-PARTS = ['item', 'single', 'interval', 'list']
+HISTORY_MAX = 4
+PARTS = ['item', 'single', 'interval', 'list', 'shared']
 COMMON_ACTIONS = ['Start', 'LeafStart', 'NextAlt', 'Compare', 'Standardize', 'Multiply', 'ConsolidateSamples', 'Best',
                   'StripKeys', 'AttemptCredit', 'DebugAppend', 'FormatMessages']
 PART_ACTIONS = {'item': ['MatrixGuard'], 'single': ['Pad', 'SingleConsolidate', 'SingleAward', 'OuterBest'],
                 'interval': ['Brackets', 'SingleConsolidate', 'SingleAward', 'OuterBest'],
-                'list': ['TableReturn', 'NestedCheck', 'UngroupStage', 'ZeroIfImperfect']}
+                'list': ['TableReturn', 'NestedCheck', 'UngroupStage', 'ZeroIfImperfect'],
+                'shared': ['UngroupStage', 'ZeroIfImperfect', 'FollowUp']}
 
 
 def first_counterexample(out):
@@ -1101,8 +1212,8 @@ def clause_class(clause):
     return clause if clause else 'unclassified'
 
 
-def run_replay(ctx, variant):
-    """TLC exploration + replay of every terminal vector for one model variant ('' as coded, '_repaired').
+def run_replay(ctx, variant=''):
+    """TLC exploration of every part of the pipeline model + replay of every terminal behaviour.
     -> (classes merged over parts, drift list, statistics)"""
     classes, drift = {}, []
     stats = {'terminal': 0, 'calls': 0, 'predicted_ill_formed': 0, 'raised': 0, 'drifting': 0}
@@ -1135,33 +1246,31 @@ def run_replay(ctx, variant):
     return classes, drift, stats
 
 
+FLAWS = [('flaw_staleok', 'the comparer\'s ok survives the multiplication by the answer credit (repaired in /repo by 370d190)'),
+         ('flaw_childdebug', 'a debugging ListGrader leaves debug switched on in its subgrader objects')]
+
+
 def run(ctx):
-    # ---- the property on the model itself: as coded it fails (design-level counterexample), repaired it holds
-    r = ctx.tlc('graders/MC_ResultPipeline.tla', 'graders/MC_ResultPipeline_prop_ascoded.cfg', must_hold=False, timeout=600)
-    model_violates = 'InvReturnedWellFormed' in r.violated
-    ctx.extra['model_as_coded'] = {'InvReturnedWellFormed': 'violated' if model_violates else 'holds',
-                                   'counterexample_choices': first_counterexample(r.out) if model_violates else None}
-    ctx.tlc('graders/MC_ResultPipeline.tla', 'graders/MC_ResultPipeline_item_%s_repaired.cfg' % ctx.tier, timeout=3000,
-            deadlock=True)
+    from engine.main import Machinery
+    # ---- exhibits / vacuity guards: flawed designs of the pipeline MUST violate the property in TLC
+    exhibits = {}
+    for flaw, what in FLAWS:
+        r = ctx.tlc('graders/MC_ResultPipeline.tla', 'graders/MC_ResultPipeline_%s.cfg' % flaw, must_hold=False, timeout=600)
+        if 'InvReturnedWellFormed' not in r.violated:
+            raise Machinery('vacuity guard: flawed design %s does not violate InvReturnedWellFormed' % flaw)
+        exhibits[flaw] = {'design': what, 'InvReturnedWellFormed': 'violated', 'counterexample_choices': first_counterexample(r.out)}
+    ctx.extra['flawed_designs_rejected_by_tlc'] = exhibits
     if not ctx.quick:
-        ctx.tlc('graders/MC_ResultPipeline.tla', 'graders/MC_ResultPipeline_list_thorough_repaired.cfg',
-                timeout=3000, deadlock=True)
+        # the exact extent of the stale-ok flaw (laws about the flawed design)
+        ctx.tlc('graders/MC_ResultPipeline.tla', 'graders/MC_ResultPipeline_flaw_staleok_laws.cfg', timeout=3000, deadlock=True)
     ctx.tlc('graders/MC_ResultPipeline.tla', 'graders/MC_ResultPipeline_live.cfg', timeout=1200, deadlock=True)
 
-    # ---- spec -> code
+    # ---- spec -> code (the model of the code as it is: InvReturnedWellFormed is among the invariants of every part)
     classes, drift, stats = run_replay(ctx, '')
-    variant = 'as_coded'
-    if any(x.get('model_verdict') for x in drift):
-        # the code departs from the as-coded model where that model returns an ill-formed value:
-        # see whether it follows the repaired design instead
-        classes2, drift2, stats2 = run_replay(ctx, '_repaired')
-        if stats2['drifting'] < stats['drifting']:
-            classes, drift, stats, variant = classes2, drift2, stats2, 'repaired'
-    ctx.extra['model_variant_followed_by_code'] = variant
     if stats['raised'] == 0 or stats['terminal'] == stats['raised']:
-        from engine.main import Machinery
         raise Machinery('replay is vacuous: %s' % stats)
     ctx.extra['replay'] = stats
+    ctx.extra['drifting_vectors'] = stats['drifting']
     ctx.traces_validated += stats['calls']
     ctx.evaluations += stats['calls']
     for x in drift[:10]:
@@ -1181,7 +1290,7 @@ def run(ctx):
     n = 3000 if ctx.quick else 60000
     per = 50
     base = 1000000
-    items = [(ctx.seed * 7919 + i, per, base + i * per) for i in range(n // per)]
+    items = [(ctx.seed * 7919 + i, per, base + i * per * HISTORY_MAX) for i in range(n // per)]
     stats_r, descs = {}, {}
     for chunk in dump.pmap('engine.adapters.c01', 'observe_chunk', items):
         records += chunk['recs']
@@ -1193,9 +1302,8 @@ def run(ctx):
     for k in stats_r:
         ctx.nontrivial.add(('random', k))
     ctx.extra['random_outcomes'] = dict(sorted(stats_r.items()))
-    vac = [name for name, _ in GENERATORS if stats_r.get('%s:returned' % name, 0) == 0]
+    vac = [name for name in [g[0] for g in GENERATORS] + ['again', 'alone'] if stats_r.get('%s:returned' % name, 0) == 0]
     if vac:
-        from engine.main import Machinery
         raise Machinery('random driver produced no returned value for %s' % vac)
 
     rej = traces.validate(ctx, 'graders/ResultShapeTrace.tla', 'graders/ResultShapeTrace.cfg', records, timeout=3000)
@@ -1211,24 +1319,24 @@ def run(ctx):
         if rid in owner:
             _, cnt, ex = owner[rid]
             sig = {'class': clause_class(clause), 'source': 'replay', 'part': ex['part'], 'host': ex['host'],
-                   'choices': [list(x) for x in ex['ch']], 'returned': ex['result'], 'same_shape_count': cnt,
-                   'model_verdict': ex['model_verdict'], 'predicted_by_model': bool(ex['model_verdict'])}
-            ctx.violation(sig, 'replayed vector %s returned %s: %s (%d vectors with this shape; the model %s)' % (
-                vector_text(ex['part'], ex['host'], ex['ch']), ex['result'], clause, cnt,
-                'predicts it' if ex['model_verdict'] else 'returns a well-formed value'))
+                   'choices': [list(x) for x in ex['ch']], 'call': ex['call'], 'k': ex['k'], 'returned': ex['result'],
+                   'same_shape_count': cnt}
+            ctx.violation(sig, 'replayed vector %s, %s call, returned %s: %s (%d calls with this shape; the model returns a '
+                          'well-formed value)' % (vector_text(ex['part'], ex['host'], ex['ch']), ex['call'], ex['result'], clause, cnt))
         else:
             dd = descs[rid]
-            sig = {'class': clause_class(clause), 'source': 'random', 'case': dd['case'], 'returned': dd['result']}
-            ctx.violation(sig, '%s(%s) on %r attempt=%s returned %s: %s' % (
+            sig = {'class': clause_class(clause), 'source': 'random', 'case': dd['case'], 'call': dd['call'], 'returned': dd['result']}
+            ctx.violation(sig, '%s(%s) on %r attempt=%s, history step %r, returned %s: %s' % (
                 dd['case']['cls'], json.dumps({k: v for k, v in dd['case'].items() if k not in ('cls', 'inputs', 'attempt')},
                                               default=str, ensure_ascii=True)[:600],
-                dd['case']['inputs'], dd['case']['attempt'], dd['result'], clause))
+                dd['case']['inputs'], dd['case']['attempt'], dd['call'], dd['result'], clause))
     for rid in list(descs)[:2]:
         ctx.sample({'random_case': descs[rid]['case'], 'returned': descs[rid]['result']})
     ctx.extra['bounds'] = {'tier': ctx.tier, 'replayed_vectors': stats['terminal'], 'real_calls_in_replay': stats['calls'],
                            'distinct_result_shapes_from_replay': n_replay_records, 'random_calls': n,
                            'random_calls_that_returned': returned,
-                           'model_vectors_predicted_ill_formed': stats['predicted_ill_formed']}
+                           'attempt_credit_palette': 'none, 1, 1/2, 0, 0.0001 (+ 0.00007, 0.00003 thorough) via author functions and '
+                                                     'Linear/Geometric/ReciprocalCredit at attempts up to 30000'}
     ctx.assumptions += [
         'IntegralGrader cannot run here (scipy is not installed); SumGrader exercises the shared summation base class',
         'comparers honour their documented contract (True / False / "partial" / dict with grade_decimal in [0, 1])',
@@ -1237,30 +1345,36 @@ def run(ctx):
         'SumGrader may answer several input boxes with the single-dictionary form (DESIGN C01)',
         'ListGrader stage of the model is ordered=True with one answer list; unordered matching and alternative answer '
         'lists are exercised by the random driver only (and modelled in C05)',
-        'calls that raise (shape / type errors not suppressed, invalid inputs) return nothing and are outside C01 (C02)']
+        'calls that raise (shape / type errors not suppressed, invalid inputs) return nothing and are outside C01 (C02)',
+        'a call is judged against the debug flag its grader object was configured with at construction, whatever other '
+        'graders sharing the object did in earlier calls']
 
 
 def replay(ctx, rec):
-    """re-run one recorded case against the current tree and let the trace specification judge what it returns"""
+    """re-run one recorded case (the whole history it belongs to) against the current tree and let the trace
+    specification judge what the recorded call returns"""
     from engine import repo
     repo.activate()
     sig = rec['signature']
     if sig.get('source') == 'replay':
         ch = [tuple(x) for x in sig['choices']]
-        result, err, meta = run_vector(sig['part'], ch, sig['host'])
+        obs = run_vector(sig['part'], ch, sig['host'], sig.get('k', 0))
         print('vector  :', vector_text(sig['part'], sig['host'], ch))
-        print('returned:', result if err is None else 'raised ' + err)
+        result, err, meta = [o for o in obs if o[2]['call'] == sig.get('call', 'only')][0]
+        print('%s call returned:' % meta['call'], result if err is None else 'raised ' + err)
         if err is not None:
             return True
         facts = project(result)
         facts.update(cls=meta['cls'], form=meta['form'], n_inputs=meta['n_inputs'], debug=meta['debug'], pinned=meta['pins'])
     else:
         d = sig['case']
-        facts, outcome, result = observe_case(d)
+        obs = [o for o in observe_case(d) if o['label'] == sig.get('call', 'call')]
         print('case    :', json.dumps(d, default=str)[:1000])
-        print('returned:', result if facts else outcome)
-        if facts is None:
+        if not obs or obs[0]['rec'] is None:
+            print('returned: nothing (%s)' % (obs[0]['outcome'] if obs else 'step not reached'))
             return True
+        print('%s returned:' % obs[0]['label'], obs[0]['result'])
+        facts = obs[0]['rec']
     facts['id'] = 1
     rej = traces.validate(ctx, 'graders/ResultShapeTrace.tla', 'graders/ResultShapeTrace.cfg', [facts])
     if rej:
